@@ -10,7 +10,7 @@ stdin: {"cases": [case, ...]}; stdout: {"results": [...]}.  Case kinds:
   cmd   : {name, arg: [code points]}
   addr  : {text}
   visit : {url, req_user, req_pass, restart, listing, fresh, cached, ctrl, ctrl_segs,
-           data, data_segs, limit}
+           data, data_segs, net: [[a, b], ...], limit}
 """
 import asyncio
 import io
@@ -22,7 +22,7 @@ import harness.compat  # noqa
 from wpull.errors import ProtocolError, NetworkError, AuthenticationError
 from wpull.network.connection import Connection, ConnectionState, DummyCloseTimer
 from wpull.protocol.ftp.client import Session
-from wpull.protocol.ftp.request import Request, Reply, Command
+from wpull.protocol.ftp.request import Request, Reply, Command, Response
 from wpull.protocol.ftp.stream import ControlStream
 from wpull.protocol.ftp.util import FTPServerError
 import wpull.protocol.ftp.util as ftp_util
@@ -31,23 +31,77 @@ import wpull.protocol.ftp.util as ftp_util
 # --------------------------------------------------------------------------
 # fakes: only the transport is scripted; StreamReader and Connection are real
 # --------------------------------------------------------------------------
-class ScriptedReader(asyncio.StreamReader):
-    """A real StreamReader whose data arrives one scripted segment per wait
-    (_wait_for_data is the single place where StreamReader suspends for the
-    transport).  After the last segment the next wait is EOF."""
+class Wire:
+    """The bytes the peer sends on one connection and how they reach the
+    StreamReader (Model/FtpConn.v): `sizes` is the segmentation oracle - the
+    i-th wait of the reader delivers sizes[i] bytes (1 byte once the list is
+    exhausted; fewer when less is left), EOF when nothing is left - and push(k)
+    is a spontaneous arrival of k bytes while the client is not waiting for this
+    connection (bytes that arrive before the reader exists are fed when it is
+    created)."""
 
-    def __init__(self, segments, log, tag, limit):
+    def __init__(self, data, sizes):
+        self.remaining = bytes(data)
+        self.sizes = list(sizes)
+        self.reader = None
+        self.pre = 0
+
+    def attach(self, reader):
+        self.reader = reader
+        if self.pre:
+            self._feed(self.pre)
+            self.pre = 0
+
+    def _feed(self, n):
+        seg, self.remaining = self.remaining[:n], self.remaining[n:]
+        if seg:
+            self.reader.feed_data(seg)
+
+    def push(self, k):
+        if self.reader is None:
+            self.pre += k
+        else:
+            self._feed(k)
+
+    def wait(self):
+        n = self.sizes.pop(0) if self.sizes else 1
+        if self.remaining:
+            self._feed(n)
+        else:
+            self.reader.feed_eof()
+
+
+class Net:
+    """the arrival schedule (Model/Ftp.v s_net): one element (a, b) per primitive
+    step of the session"""
+
+    def __init__(self, schedule, ctrl, data):
+        self.schedule = [tuple(x) for x in schedule]
+        self.ctrl = ctrl
+        self.data = data
+
+    def arrive(self):
+        if self.schedule:
+            a, b = self.schedule.pop(0)
+            self.ctrl.push(a)
+            self.data.push(b)
+
+
+class ScriptedReader(asyncio.StreamReader):
+    """A real StreamReader whose data arrives from a Wire (_wait_for_data is the
+    single place where StreamReader suspends for the transport)."""
+
+    def __init__(self, wire, log, tag, limit, net=None):
         super().__init__(limit=limit)
-        self._segs = list(segments)
+        self._wire = wire
         self._log = log
         self._tag = tag
+        self._net = net
         self.overrun = False
+        wire.attach(self)
 
     async def _wait_for_data(self, func_name):
-        if self._segs:
-            self.feed_data(self._segs.pop(0))
-        else:
-            self.feed_eof()
+        self._wire.wait()
 
     async def readline(self):
         try:
@@ -57,23 +111,28 @@ class ScriptedReader(asyncio.StreamReader):
             raise
 
     async def read(self, n=-1):
+        if self._tag == 'd' and self._net is not None:
+            self._net.arrive()           # every read of the data connection is a suspension point
         data = await super().read(n)
         if self._tag == 'd':
             self._log.append('D:' + data.hex() if data else 'E')
         return data
 
     def unread(self):
-        return bytes(self._buffer) + b''.join(self._segs)
+        return bytes(self._buffer) + self._wire.remaining
 
 
 class FakeWriter:
-    def __init__(self, log, tag):
+    def __init__(self, log, tag, net=None):
         self._log = log
         self._tag = tag
+        self._net = net
 
     def write(self, data):
         if self._tag == 'c':
             self._log.append('W:' + bytes(data).hex())
+            if self._net is not None:
+                self._net.arrive()       # Connection.write drains: a suspension point
 
     def drain(self):
         return None
@@ -89,29 +148,30 @@ class FakeWriter:
 class FakeConnection(Connection):
     """wpull's Connection with connect() replaced: no socket, scripted reader."""
 
-    def __init__(self, address, segments, log, tag, limit):
+    def __init__(self, address, wire, log, tag, limit, net=None):
         super().__init__(address)
-        self._script = (segments, log, tag, limit)
+        self._script = (wire, log, tag, limit, net)
         self.script_reader = None       # survives Connection.close()
 
     @asyncio.coroutine
     def connect(self):
         if self._state != ConnectionState.ready:
             raise Exception('Closed connection must be reset before reusing.')
-        segments, log, tag, limit = self._script
-        self.reader = self.script_reader = ScriptedReader(segments, log, tag, limit)
-        self.writer = FakeWriter(log, tag)
+        wire, log, tag, limit, net = self._script
+        self.reader = self.script_reader = ScriptedReader(wire, log, tag, limit, net)
+        self.writer = FakeWriter(log, tag, net)
         self._close_timer = DummyCloseTimer()
         self._state = ConnectionState.created
         yield from asyncio.sleep(0)
 
 
 class FakePool:
-    def __init__(self, ctrl, data_segments, log, limit):
+    def __init__(self, ctrl, data_wire, log, limit, net):
         self.ctrl = ctrl
-        self._data_segments = data_segments
+        self._data_wire = data_wire
         self._log = log
         self._limit = limit
+        self._net = net
         self._ctrl_given = False
         self.data = None
 
@@ -122,22 +182,12 @@ class FakePool:
             self._ctrl_given = True
             return self.ctrl
         self._log.append('O:%s:%d' % (host, port))
-        self.data = FakeConnection((host, port), self._data_segments, self._log, 'd', self._limit)
+        self._net.arrive()               # acquiring / connecting the data connection suspends
+        self.data = FakeConnection((host, port), self._data_wire, self._log, 'd', self._limit, self._net)
         return self.data
 
     def no_wait_release(self, connection):
         pass
-
-
-def cut(data, lens):
-    out = []
-    i = 0
-    for n in lens:
-        out.append(data[i:i + n])
-        i += n
-    if i < len(data):
-        out.append(data[i:])
-    return [s for s in out if s]
 
 
 def text_hex(text):
@@ -167,7 +217,7 @@ def run_reply(case, loop):
     out = []
     for lens in case['seglists']:
         log = []
-        conn = FakeConnection(('127.0.0.1', 21), cut(stream, lens), log, 'c', case['limit'])
+        conn = FakeConnection(('127.0.0.1', 21), Wire(stream, lens), log, 'c', case['limit'])
         cs = ControlStream(conn)
         reads = []
 
@@ -231,8 +281,11 @@ def run_visit(case, loop):
     request.password = case.get('req_pass')
     if case.get('restart') is not None:
         request.set_continue(case['restart'])
-    ctrl = FakeConnection(('127.0.0.1', 21), cut(ctrl_bytes, case['ctrl_segs']), log, 'c', limit)
-    pool = FakePool(ctrl, cut(data_bytes, case['data_segs']), log, limit)
+    ctrl_wire = Wire(ctrl_bytes, case['ctrl_segs'])
+    data_wire = Wire(data_bytes, case['data_segs'])
+    net = Net(case.get('net') or [], ctrl_wire, data_wire)
+    ctrl = FakeConnection(('127.0.0.1', 21), ctrl_wire, log, 'c', limit, net)
+    pool = FakePool(ctrl, data_wire, log, limit, net)
     login_table = weakref.WeakKeyDictionary()
     session = Session(login_table, connection_pool=pool)
     result = {}
@@ -241,9 +294,17 @@ def run_visit(case, loop):
 
     @asyncio.coroutine
     def logging_read_reply(self):
+        net.arrive()
         reply = yield from orig_read_reply(self)
         log.append('R:%d' % reply.code)
         return reply
+
+    def set_restart(self, value):
+        self.__dict__['restart_value'] = value
+        if value is not None:
+            log.append('RS:%d' % value)
+
+    Response.restart_value = property(lambda self: self.__dict__.get('restart_value'), set_restart)
 
     orig_download = Session.download
 
@@ -288,6 +349,7 @@ def run_visit(case, loop):
     finally:
         ControlStream.read_reply = orig_read_reply
         Session.download = orig_download
+        del Response.restart_value
     ui = request.url_info
     return {
         'events': log,
